@@ -1,48 +1,23 @@
 /-
   C06 — Views and statistics are live and mutually consistent.
-  Property theorems only (helper lemmas: C06/Lemmas.lean).  Every statement is about the functions of
-  C06/Views.lean that the driver evaluates, at an arbitrary state satisfying `HG.WF`; by
-  `C01.C01_reachable` that is every state reachable by public calls (returning or raising).
+  Property theorems only.  Helper lemmas: C06/Lemmas*.lean; facts that merely restate a model definition
+  (`asnumpy := aslist`, `order := size - 1`, `keys s .node = s.nodes`, the transposed multi-stat layouts, …)
+  live in C06/LemmasDef.lean and are NOT counted here.  Every statement is about the functions of
+  C06/Views.lean / DiViews.lean that the driver evaluates, at an arbitrary state satisfying the incidence
+  invariant (`HG.WF`, directed: `WFd`).  The last section instantiates them at every state reachable by public
+  calls (returning or raising) of the three state machines: `C01.Reachable` (Hypergraph), `C03.Reachable`
+  (SimplicialComplex, same views) and — through C06/Bridge.lean — `C02.Reachable` (DiHypergraph).
 -/
-import XgiModel.C06.Lemmas
-import XgiModel.C06.LemmasDi
+import XgiModel.C06.LemmasDef
+import XgiModel.C06.LemmasDeg
+import XgiModel.C06.LemmasAgg
+import XgiModel.C06.Bridge
 import XgiModel.Props.C01
+import XgiModel.Props.C02
+import XgiModel.Props.C03
 
 namespace Xgi.C06
 open Xgi Xgi.HG
-
-/-! ### views -/
-
-/-- `H.nodes` / `H.edges` iterate exactly the current IDs, in dict insertion order, each once -/
-theorem views_list_current_ids {s : HG} (h : WF s) :
-    keys s .node = s.nodes ∧ keys s .edge = s.edges ∧ (keys s .node).Nodup ∧ (keys s .edge).Nodup :=
-  ⟨rfl, rfl, h.nodupN, h.nodupE⟩
-
-/-- `from_view` raises exactly when the bunch names an absent ID -/
-theorem fromView_none_iff (s : HG) (k : Kind) (b : List PyId) :
-    fromView s k b = none ↔ ∃ i ∈ b, i ∉ keys s k := by
-  unfold fromView
-  by_cases hall : (b.all (fun i => decide (i ∈ keys s k))) = true
-  · rw [if_pos hall]
-    simp only [List.all_eq_true, decide_eq_true_eq] at hall
-    constructor
-    · intro h; cases h
-    · intro ⟨i, hi, hn⟩; exact absurd (hall i hi) hn
-  · rw [if_neg hall]
-    simp only [List.all_eq_true, decide_eq_true_eq] at hall
-    refine ⟨fun _ => ?_, fun _ => rfl⟩
-    apply Classical.byContradiction; intro hne
-    apply hall; intro i hi
-    apply Classical.byContradiction; intro hn; exact hne ⟨i, hi, hn⟩
-
-/-- … and otherwise lists the IDs of the bunch that are current, in view order -/
-theorem fromView_spec {s : HG} {k : Kind} {b l : List PyId} (h : fromView s k b = some l) :
-    (∀ i, i ∈ l ↔ i ∈ keys s k ∧ i ∈ b) ∧ l.Sublist (keys s k) := by
-  unfold fromView at h
-  split at h
-  · cases h
-    exact ⟨fun i => by simp [List.mem_filter], List.filter_sublist⟩
-  · cases h
 
 /-! ### degree, size, order -/
 
@@ -68,6 +43,16 @@ theorem degree_order_spec {s : HG} (h : WF s) {n : PyId} (hn : n ∈ s.nodes) (k
   · intro ⟨h1, h2⟩; exact ⟨(h.n2e n hn e h1).1, (h.n2e n hn e h1).2, h2⟩
   · intro ⟨h1, h2, h3⟩; exact ⟨(h.e2n e h1 n h2).2, h3⟩
 
+/-- `degree(order, weight=w)`: when every current edge carries an integer under `w` (or nothing: default 1) the
+    weighted degree is the sum of the weights of the current edges (of the given order) that contain the node -/
+theorem degree_weight_spec {s : HG} (h : WF s) {n : PyId} (hn : n ∈ s.nodes) (order : Option Int) (w : String)
+    (wt : PyId → Int) (hw : ∀ e ∈ s.edges, weightOf s w e = .ok (wt e)) :
+    degreeW s order w n = .ok (((s.edges.filter (fun e => decide (n ∈ s.mem e) && orderOk s order e)).map wt).sum) :=
+  (degree_gen order w wt (fun e => decide (n ∈ s.mem e)) (h.setN n hn) h.nodupE
+    (fun e => by
+      simp only [decide_eq_true_eq]
+      exact ⟨fun he => h.n2e n hn e he, fun ⟨he, hm⟩ => (h.e2n e he n hm).2⟩) hw).2
+
 /-- size = number of members = number of current nodes that belong to the edge -/
 theorem size_eq_members {s : HG} (h : WF s) {e : PyId} (he : e ∈ s.edges) :
     size s none e = (s.mem e).length ∧
@@ -83,9 +68,6 @@ theorem size_eq_members {s : HG} (h : WF s) {e : PyId} (he : e ∈ s.edges) :
     simp [hiff]
   rw [e2] at this
   exact this
-
-/-- order is size minus one, for every `degree` argument -/
-theorem order_eq_size_sub_one (s : HG) (d : Option Int) (e : PyId) : order s d e = (size s d e : Int) - 1 := rfl
 
 /-- the handshake: the degrees sum to the sizes (double counting of the incidences) -/
 theorem handshake {s : HG} (h : WF s) :
@@ -125,11 +107,6 @@ theorem handshake_order {s : HG} (h : WF s) (k : Int) :
   rw [h1, h2]
   exact sum_countP_comm s.nodes _ (fun n e => decide (n ∈ s.mem e))
 
-/-- … at every state reachable by an edit history (calls that return and calls that raise) -/
-theorem handshake_reachable {s : HG} (h : C01.Reachable s) :
-    (s.nodes.map (fun n => degree s none n)).sum = (s.edges.map (fun e => size s none e)).sum :=
-  handshake (C01.C01_reachable h).1
-
 /-! ### output formats of one statistic agree and follow view order; the set-iteration order in which
     `_val` was built (`order`) is irrelevant -/
 
@@ -143,20 +120,6 @@ theorem asdict_spec (f : PyId → α) {view order : List PyId} (ho : ∀ i ∈ v
   intro n hn
   rw [dget_evalStat f (ho n hn)]
 
-theorem asdict_keys_view_order (view : List PyId) (d : List (PyId × α)) : (asdict view d).map (·.1) = view := by
-  unfold asdict; simp [List.map_map, Function.comp_def]
-
-theorem aslist_eq_asdict_values (view : List PyId) (d : List (PyId × α)) :
-    aslist view d = (asdict view d).map (·.2) := by
-  unfold aslist asdict; simp [List.map_map, Function.comp_def]
-
-theorem asnumpy_eq_aslist (view : List PyId) (d : List (PyId × α)) : asnumpy view d = aslist view d := rfl
-
-theorem aspandas_spec (view : List PyId) (d : List (PyId × α)) :
-    (aspandas view d).1 = view ∧ (aspandas view d).2 = aslist view d := by
-  unfold aspandas
-  exact ⟨asdict_keys_view_order view d, (aslist_eq_asdict_values view d).symm⟩
-
 /-- every format is the statistic itself read in view order -/
 theorem formats_spec (f : PyId → α) {view order : List PyId} (ho : ∀ i ∈ view, i ∈ order) :
     aslist view (evalStat f order) = view.map f ∧ asnumpy view (evalStat f order) = view.map f ∧
@@ -169,15 +132,6 @@ theorem formats_spec (f : PyId → α) {view order : List PyId} (ho : ∀ i ∈ 
   exact Prod.ext this.1 this.2
 
 /-! ### multi-stat tables -/
-
-theorem multi_asdict_keys_view_order (view : List PyId) (cols : List (String × List (PyId × α))) :
-    (multiAsdict view cols).map (·.1) = view := by
-  unfold multiAsdict; simp [List.map_map, Function.comp_def]
-
-/-- the table, cell by cell -/
-theorem multiVal_eq (view : List PyId) (cols : List (String × List (PyId × α))) :
-    multiVal view cols = view.map (fun n => (n, cols.map (fun c => (c.1, dget (asdict view c.2) n)))) := by
-  unfold multiVal; simp [List.map_map, Function.comp_def]
 
 /-- the cell (n, stat) of the table is the value the single stat reports for n -/
 theorem multi_cell {view : List PyId} {cols : List (String × List (PyId × α))} {n : PyId} (hn : n ∈ view)
@@ -198,26 +152,35 @@ theorem multi_column {view : List PyId} {cols : List (String × List (PyId × α
   intro n hn
   rw [multi_cell hn hc hnames, dget_asdict c.2 hn]
 
-/-- rows of `aslist()` list the stats in the order given; the transposed forms are the single stats -/
-theorem multi_rows {view : List PyId} (cols : List (String × List (PyId × α))) :
-    multiAslist view cols = view.map (fun n => cols.map (fun c => dget (asdict view c.2) n)) ∧
-    multiAslistT view cols = cols.map (fun c => aslist view c.2) ∧
-    multiAsdictT view cols = cols.map (fun c => (c.1, asdict view c.2)) := by
-  refine ⟨?_, rfl, rfl⟩
-  unfold multiAslist
-  simp only []
-  apply List.map_congr_left
-  intro n hn
-  rw [multiVal_eq, dget_map_self (fun n => cols.map (fun c => (c.1, dget (asdict view c.2) n))) hn]
-  simp [List.map_map, Function.comp_def]
-
-/-- the data frame: index = view order, columns = the stat names, rows = `aslist()` -/
-theorem multi_aspandas_spec {view : List PyId} (cols : List (String × List (PyId × α))) :
-    (multiAspandas view cols).1 = view ∧ (multiAspandas view cols).2.1 = cols.map (·.1) ∧
-    (multiAspandas view cols).2.2 = multiAslist view cols := by
-  refine ⟨rfl, ?_, ?_⟩
-  · unfold multiAspandas; simp [List.map_map, Function.comp_def]
-  · rw [(multi_rows cols).1]; unfold multiAspandas; simp [List.map_map, Function.comp_def]
+/-- every layout of a multi-stat table is made of the statistics themselves, read in view order, whatever the
+    set-iteration order `order` in which each `_val` was built: rows of `aslist()` / `asnumpy()` / the data frame
+    are `[f₁ n, f₂ n, …]` per ID `n` of the view; the transposed list is one `aslist()` per stat -/
+theorem multi_table_spec (fs : List (String × (PyId → α))) {view order : List PyId} (ho : ∀ i ∈ view, i ∈ order) :
+    let cols := fs.map (fun c => (c.1, evalStat c.2 order))
+    multiAslist view cols = view.map (fun n => fs.map (fun c => c.2 n)) ∧
+    multiAsnumpy view cols = view.map (fun n => fs.map (fun c => c.2 n)) ∧
+    multiAslistT view cols = fs.map (fun c => view.map c.2) ∧
+    multiAspandas view cols = (view, fs.map (·.1), view.map (fun n => fs.map (fun c => c.2 n))) := by
+  intro cols
+  have hrow : multiAslist view cols = view.map (fun n => fs.map (fun c => c.2 n)) := by
+    rw [(multi_rows cols).1]
+    apply List.map_congr_left
+    intro n hn
+    simp only [cols, List.map_map, Function.comp_def]
+    apply List.map_congr_left
+    intro c _
+    rw [dget_asdict _ hn, dget_evalStat c.2 (ho n hn)]
+  have hcol : multiAslistT view cols = fs.map (fun c => view.map c.2) := by
+    rw [(multi_rows cols).2.1]
+    simp only [cols, List.map_map, Function.comp_def]
+    apply List.map_congr_left
+    intro c _
+    exact (formats_spec c.2 ho).1
+  refine ⟨hrow, hrow, hcol, ?_⟩
+  have hp := multi_aspandas_spec (view := view) cols
+  refine Prod.ext hp.1 (Prod.ext ?_ ?_)
+  · rw [hp.2.1]; simp [cols, List.map_map, Function.comp_def]
+  · rw [hp.2.2, hrow]
 
 end formats
 
@@ -253,19 +216,6 @@ theorem filterby_mem {s : HG} (h : WF s) (k : Kind) {view order : List PyId} (hv
   ⟨_, filterby_spec h k hv ho f m x y, List.filter_sublist, fun i => by simp [List.mem_filter]⟩
 
 end filter
-
-/-- what each mode means -/
-theorem cmp_spec (m : Mode) (v x y : Int) :
-    cmp m v x y = true ↔ match m with
-      | .eq => v = x | .neq => v ≠ x | .lt => v < x | .gt => v > x | .leq => v ≤ x | .geq => v ≥ x
-      | .between => x ≤ v ∧ v ≤ y := by
-  cases m <;> simp [cmp]
-
-/-- on integer attribute values `filterby_attr` compares like `filterby` -/
-theorem cmpVal_int (m : Mode) (v x y : Int) :
-    cmpVal m (.sc (.int v)) (.sc (.int x)) (.sc (.int y)) = some (cmp m v x y) := by
-  cases m <;> simp [cmpVal, cmp, valLe, valLt]
-  · by_cases hxv : x ≤ v <;> simp [hxv]
 
 /-- `filterby_attr`: when it returns, it returns exactly the IDs of the view whose attribute value
     (with `missing` substituted) is not `None` and satisfies the comparison, in view order -/
@@ -364,11 +314,6 @@ theorem edge_neighbors_spec {s : HG} (h : WF s) {e : PyId} (he : e ∈ s.edges) 
         (sp = 1 ∨ (((s.mem e).filter (fun x => decide (x ∈ s.mem f))).length : Int) ≥ sp) :=
   neighbors_spec_s h .edge (i := e) he sp
 
-/-- an absent ID raises `IDNotFound` -/
-theorem neighbors_absent (s : HG) (k : Kind) {i : PyId} (hi : i ∉ keys s k) (sp : Int) :
-    neighbors s k i sp = none := by
-  unfold neighbors; rw [if_pos hi]
-
 /-! ### lookup, duplicates -/
 
 /-- `view.lookup(L)`: the current IDs whose bipartite neighbourhood is exactly the set L, in view order -/
@@ -378,21 +323,6 @@ theorem lookup_spec (s : HG) (k : Kind) (sought : List PyId) (i : PyId) :
   unfold lookup
   rw [filter_mem_filter]
   exact ⟨by simp [List.mem_filter, sameSet_iff], List.filter_sublist⟩
-
-/-- the member of a class of equal IDs that `duplicates()` does not report: the smallest under Python's
-    ordering when the IDs can be sorted, else the first in dict order -/
-def rep (g : List PyId) : Option PyId :=
-  match sortedIds g with
-  | some l => l.head?
-  | none => g.head?
-
-/-- the unreported member is a member of the class -/
-theorem rep_mem {g : List PyId} {r : PyId} (h : rep g = some r) : r ∈ g := by
-  unfold rep at h
-  split at h
-  · rename_i l hs
-    exact (sortedIds_perm hs).subset (List.mem_of_mem_head? h)
-  · exact List.mem_of_mem_head? h
 
 /-- `view.duplicates()`: i is reported ↔ another current ID has the same bipartite neighbourhood and i is
     not the one representative of its class — so from every class of k ≥ 2 equal IDs exactly k−1 are
@@ -589,6 +519,89 @@ theorem maximal_strict_spec {s : HG} (h : WF s) (e : PyId) :
     · intro ⟨hf, hsub⟩; exact hall f hf hsub
     · intro hfe; subst hfe; exact ⟨he, fun n hn => hn⟩
 
+/-! ### aggregates of one numeric statistic, with the tie-breaking the docstrings promise -/
+
+/-- `argmax()` returns the FIRST ID in view order whose value is the largest -/
+theorem argmax_spec (f : PyId → Rat) {view : List PyId} (hne : view ≠ []) :
+    ∃ i pre post, argmax view f = some i ∧ view = pre ++ i :: post ∧
+      (∀ j ∈ pre, f j < f i) ∧ ∀ j ∈ post, f j ≤ f i := by
+  cases view with
+  | nil => exact absurd rfl hne
+  | cons a t =>
+    obtain ⟨i, hi, hc⟩ := argmax_fold f t a
+    refine ⟨i, ?_⟩
+    rcases hc with ⟨rfl, hall⟩ | ⟨pre, post, rfl, h1, h2, h3⟩
+    · exact ⟨[], t, hi, rfl, by simp, hall⟩
+    · refine ⟨a :: pre, post, hi, rfl, ?_, h3⟩
+      intro j hj
+      rcases List.mem_cons.1 hj with rfl | hj
+      · exact h1
+      · exact h2 j hj
+/-- `argmin()` returns the FIRST ID in view order whose value is the smallest -/
+theorem argmin_spec (f : PyId → Rat) {view : List PyId} (hne : view ≠ []) :
+    ∃ i pre post, argmin view f = some i ∧ view = pre ++ i :: post ∧
+      (∀ j ∈ pre, f i < f j) ∧ ∀ j ∈ post, f i ≤ f j := by
+  cases view with
+  | nil => exact absurd rfl hne
+  | cons a t =>
+    obtain ⟨i, hi, hc⟩ := argmin_fold f t a
+    refine ⟨i, ?_⟩
+    rcases hc with ⟨rfl, hall⟩ | ⟨pre, post, rfl, h1, h2, h3⟩
+    · exact ⟨[], t, hi, rfl, by simp, hall⟩
+    · refine ⟨a :: pre, post, hi, rfl, ?_, h3⟩
+      intro j hj
+      rcases List.mem_cons.1 hj with rfl | hj
+      · exact h1
+      · exact h2 j hj
+
+/-- `argsort(reverse)`: a permutation of the view, sorted by value (ascending / descending), in which IDs
+    with equal values keep their view order -/
+theorem argsort_spec (f : PyId → Rat) (view : List PyId) (rev : Bool) :
+    (argsort view f rev).Perm view ∧
+    (argsort view f rev).Pairwise (fun a b => if rev then f b ≤ f a else f a ≤ f b) ∧
+    ∀ a b, f a = f b → [a, b].Sublist view → [a, b].Sublist (argsort view f rev) := by
+  refine ⟨sortBy_perm _, ?_, ?_⟩
+  · have := sortBy_pairwise (argsortLe_trans f rev) (argsortLe_total f rev) view
+    refine this.imp ?_
+    intro a b hab
+    unfold argsortLe at hab
+    cases rev <;> simpa using hab
+  · intro a b hab hs
+    apply pair_sublist_sortBy (argsortLe_trans f rev) (argsortLe_total f rev) _ hs
+    unfold argsortLe; cases rev <;> simp [hab] <;> grind
+
+/-- `max()` / `min()` are values of the stat that bound all its values, and they are the values at
+    `argmax()` / `argmin()` -/
+theorem max_min_spec (f : PyId → Rat) {view : List PyId} (hne : view ≠ []) :
+    (∃ m, aggMax (view.map f) = some m ∧ (∃ i ∈ view, f i = m) ∧ (∀ j ∈ view, f j ≤ m) ∧ (argmax view f).map f = some m) ∧
+    (∃ m, aggMin (view.map f) = some m ∧ (∃ i ∈ view, f i = m) ∧ (∀ j ∈ view, m ≤ f j) ∧ (argmin view f).map f = some m) := by
+  cases view with
+  | nil => exact absurd rfl hne
+  | cons a t =>
+    constructor
+    · obtain ⟨r, hr, hm, hle, hall⟩ := aggMax_fold (t.map f) (f a)
+      have hr' : aggMax ((a :: t).map f) = some r := hr
+      refine ⟨r, hr', ?_, ?_, by rw [argmax_value, hr']⟩
+      · rcases hm with rfl | hm
+        · exact ⟨a, by simp, rfl⟩
+        · obtain ⟨i, hi, rfl⟩ := List.mem_map.1 hm
+          exact ⟨i, by simp [hi], rfl⟩
+      · intro j hj
+        rcases List.mem_cons.1 hj with rfl | hj
+        · exact hle
+        · exact hall _ (List.mem_map.2 ⟨j, hj, rfl⟩)
+    · obtain ⟨r, hr, hm, hle, hall⟩ := aggMin_fold (t.map f) (f a)
+      have hr' : aggMin ((a :: t).map f) = some r := hr
+      refine ⟨r, hr', ?_, ?_, by rw [argmin_value, hr']⟩
+      · rcases hm with rfl | hm
+        · exact ⟨a, by simp, rfl⟩
+        · obtain ⟨i, hi, rfl⟩ := List.mem_map.1 hm
+          exact ⟨i, by simp [hi], rfl⟩
+      · intro j hj
+        rcases List.mem_cons.1 hj with rfl | hj
+        · exact hle
+        · exact hall _ (List.mem_map.2 ⟨j, hj, rfl⟩)
+
 /-! ### directed: in/out/total degrees and head/tail sizes against the directed incidence -/
 
 /-- total degree = |in ∪ out| memberships = number of current edges with the node in tail or head -/
@@ -610,13 +623,41 @@ theorem di_out_in_degree_spec {s : DiSt} (h : WFd s) {n : PyId} (hn : n ∈ s.no
     s.inDegree none n = (s.edges.filter (fun e => decide (n ∈ s.head e))).length :=
   ⟨(degree_eq_memberships (wf_outP h) (n := n) hn).2, (degree_eq_memberships (wf_inP h) (n := n) hn).2⟩
 
-/-- size = |tail ∪ head|, tail_size = |tail|, head_size = |head|; every order is the size minus one -/
-theorem di_size_spec (s : DiSt) (d : Option Int) (e : PyId) :
-    s.size none e = (dedup (s.tail e ++ s.head e)).length ∧ s.tailSize none e = (s.tail e).length ∧
-    s.headSize none e = (s.head e).length ∧ s.order d e = (s.size d e : Int) - 1 ∧
-    s.tailOrder d e = (s.tailSize d e : Int) - 1 ∧ s.headOrder d e = (s.headSize d e : Int) - 1 :=
-  ⟨rfl, rfl, rfl, rfl, rfl, rfl⟩
-
+/-- all twelve branches of `dinodestats`: `degree` / `in_degree` / `out_degree`, each with and without `order`
+    and `weight`, count (or sum the integer weights of) the current edges of the given order that hold the node
+    in tail ∪ head / in the head / in the tail; the order of an edge is |tail ∪ head| - 1 in every branch -/
+theorem di_degree_full_spec {s : DiSt} (h : WFd s) {n : PyId} (hn : n ∈ s.nodes) (order : Option Int) (w : String)
+    (wt : PyId → Int) (hw : ∀ e ∈ s.edges, weightOf s.tot w e = .ok (wt e)) :
+    (s.degree order n = (s.edges.filter (fun e => decide (n ∈ s.tail e ∨ n ∈ s.head e) && orderOk s.tot order e)).length ∧
+     s.degreeW order w n = .ok (((s.edges.filter (fun e => decide (n ∈ s.tail e ∨ n ∈ s.head e) && orderOk s.tot order e)).map wt).sum)) ∧
+    (s.inDegree order n = (s.edges.filter (fun e => decide (n ∈ s.head e) && orderOk s.tot order e)).length ∧
+     s.inDegreeW order w n = .ok (((s.edges.filter (fun e => decide (n ∈ s.head e) && orderOk s.tot order e)).map wt).sum)) ∧
+    (s.outDegree order n = (s.edges.filter (fun e => decide (n ∈ s.tail e) && orderOk s.tot order e)).length ∧
+     s.outDegreeW order w n = .ok (((s.edges.filter (fun e => decide (n ∈ s.tail e) && orderOk s.tot order e)).map wt).sum)) := by
+  have ht := wf_tot h
+  refine ⟨?_, ?_, ?_⟩
+  · exact degree_gen (s := s.tot) order w wt (fun e => decide (n ∈ s.tail e ∨ n ∈ s.head e)) (ht.setN n hn) h.nodupE
+      (fun e => by
+        simp only [decide_eq_true_eq]
+        constructor
+        · intro he
+          have := ht.n2e n hn e he
+          refine ⟨this.1, ?_⟩
+          have hm := this.2
+          simp only [DiSt.tot, DiSt.proj, DiSt.mem, mem_dedup, List.mem_append] at hm
+          exact hm
+        · intro ⟨he, hm⟩
+          refine (ht.e2n e he n ?_).2
+          simp only [DiSt.tot, DiSt.proj, DiSt.mem, mem_dedup, List.mem_append]
+          exact hm) hw
+  · exact degree_gen (s := s.inStat) order w wt (fun e => decide (n ∈ s.head e)) (h.setIn n hn) h.nodupE
+      (fun e => by
+        simp only [decide_eq_true_eq]
+        exact ⟨fun he => h.in2head n hn e he, fun ⟨he, hm⟩ => (h.head2in e he n hm).2⟩) hw
+  · exact degree_gen (s := s.outStat) order w wt (fun e => decide (n ∈ s.tail e)) (h.setOut n hn) h.nodupE
+      (fun e => by
+        simp only [decide_eq_true_eq]
+        exact ⟨fun he => h.out2tail n hn e he, fun ⟨he, hm⟩ => (h.tail2out e he n hm).2⟩) hw
 /-- the out-degrees sum to the tail sizes -/
 theorem di_handshake_out_tail {s : DiSt} (h : WFd s) :
     (s.nodes.map (fun n => s.outDegree none n)).sum = (s.edges.map (fun e => s.tailSize none e)).sum :=
@@ -655,6 +696,58 @@ theorem di_queries_spec {s : DiSt} (h : WFd s) (sought : List PyId) (e n : PyId)
   · rw [isolates_spec (wf_tot h)]; simp [DiSt.tot, DiSt.proj, DiSt.mem]
   · rw [empty_spec]; simp [DiSt.tot, DiSt.proj, DiSt.mem]
   · rw [duplicates_spec (wf_tot h)]; simp [DiSt.tot, DiSt.proj, DiSt.mem, keys, tab]
+
+/-! ### … at every reachable state of the three classes -/
+
+/-- every state reachable by public calls — Hypergraph (C01's machine), SimplicialComplex (C03's machine, same
+    view classes), DiHypergraph (C02's machine, read through `toDiSt`) — satisfies the hypothesis of the
+    theorems above, so each of them holds "at every reachable network state" -/
+theorem reachable_wf :
+    (∀ s : HG, C01.Reachable s → WF s) ∧ (∀ s : HG, C03.Reachable s → WF s) ∧
+    (∀ s : DHG, C02.Reachable s → WFd (toDiSt s)) :=
+  ⟨fun _ h => (C01.C01_reachable h).1, fun _ h => (C03.C03_reachable h).wf,
+   fun _ h => wfd_of_dhg (C02.C02_reachable h).1⟩
+
+/-- … at every state reachable by an edit history (calls that return and calls that raise) -/
+theorem handshake_reachable {s : HG} (h : C01.Reachable s) :
+    (s.nodes.map (fun n => degree s none n)).sum = (s.edges.map (fun e => size s none e)).sum :=
+  handshake (C01.C01_reachable h).1
+
+/-- the handshake at every reachable simplicial complex -/
+theorem handshake_reachable_sc {s : HG} (h : C03.Reachable s) :
+    (s.nodes.map (fun n => degree s none n)).sum = (s.edges.map (fun e => size s none e)).sum :=
+  handshake (reachable_wf.2.1 s h)
+
+/-- directed handshakes at every reachable dihypergraph: out-degrees sum to tail sizes, in-degrees to head
+    sizes, total degrees to sizes -/
+theorem di_handshake_reachable {s : DHG} (h : C02.Reachable s) :
+    ((s.nodes.map (fun n => (toDiSt s).outDegree none n)).sum = (s.edges.map (fun e => (s.tail e).length)).sum) ∧
+    ((s.nodes.map (fun n => (toDiSt s).inDegree none n)).sum = (s.edges.map (fun e => (s.head e).length)).sum) ∧
+    ((s.nodes.map (fun n => (toDiSt s).degree none n)).sum
+      = (s.edges.map (fun e => (dedup (s.tail e ++ s.head e)).length)).sum) :=
+  have hw := reachable_wf.2.2 s h
+  ⟨di_handshake_out_tail hw, di_handshake_in_head hw, di_handshake_total hw⟩
+
+/-- directed degrees at every reachable dihypergraph, in terms of C02's own tables: total / in / out degree =
+    number of current edges holding the node in tail ∪ head / head / tail -/
+theorem di_degree_reachable {s : DHG} (h : C02.Reachable s) {n : PyId} (hn : n ∈ s.nodes) :
+    (toDiSt s).degree none n = (s.edges.filter (fun e => decide (n ∈ s.tail e ∨ n ∈ s.head e))).length ∧
+    (toDiSt s).outDegree none n = (s.edges.filter (fun e => decide (n ∈ s.tail e))).length ∧
+    (toDiSt s).inDegree none n = (s.edges.filter (fun e => decide (n ∈ s.head e))).length :=
+  have hw := reachable_wf.2.2 s h
+  ⟨(di_degree_spec hw (s := toDiSt s) hn).2, (di_out_in_degree_spec hw (s := toDiSt s) hn).1,
+   (di_out_in_degree_spec hw (s := toDiSt s) hn).2⟩
+
+/-- directed neighbors / lookup / isolates / empty / duplicates at every reachable dihypergraph -/
+theorem di_queries_reachable {s : DHG} (h : C02.Reachable s) (sought : List PyId) (e n : PyId) :
+    (e ∈ lookup (toDiSt s).tot .edge sought ↔ e ∈ s.edges ∧ ∀ x, (x ∈ s.tail e ∨ x ∈ s.head e) ↔ x ∈ sought) ∧
+    (n ∈ isolates (toDiSt s).tot false ↔ n ∈ s.nodes ∧ ∀ f ∈ s.edges, n ∉ s.tail f ∧ n ∉ s.head f) ∧
+    (e ∈ empty (toDiSt s).tot ↔ e ∈ s.edges ∧ ∀ x, x ∉ s.tail e ∧ x ∉ s.head e) ∧
+    (n ∈ s.nodes → ∃ l, neighbors (toDiSt s).tot .node n 1 = some l ∧
+      ∀ m, m ∈ l ↔ m ≠ n ∧ ∃ f ∈ s.edges, (n ∈ s.tail f ∨ n ∈ s.head f) ∧ (m ∈ s.tail f ∨ m ∈ s.head f)) :=
+  have hw := reachable_wf.2.2 s h
+  have hq := di_queries_spec hw sought e n
+  ⟨hq.1, hq.2.1, hq.2.2.1, fun hn => di_neighbors_spec hw (s := toDiSt s) hn⟩
 
 /-! ### non-vacuity: a concrete history reaches a non-trivial state on which everything evaluates -/
 
@@ -711,5 +804,31 @@ example : WFd ddemo := by constructor <;> decide
 example : ddemo.nodes.map (ddemo.outDegree none) = [1, 1, 1] ∧ ddemo.edges.map (ddemo.tailSize none) = [2, 1] := by decide
 example : ddemo.nodes.map (ddemo.degree none) = [1, 2, 2] ∧ ddemo.edges.map (ddemo.size none) = [3, 2] := by decide
 example : neighbors ddemo.tot .node (.int 1) 1 = some [.int 3, .int 2] := by decide
+
+
+/-! aggregates and the bridge on concrete inputs -/
+private def dvals : PyId → Rat := fun n => (degree demo none n : Rat)
+example : argmax demo.nodes dvals = some (.int 3) ∧ argmin demo.nodes dvals = some (.int 9) := by decide
+example : argsort demo.nodes dvals false = [.int 9, .int 2, .int 3, .int 1] := by decide
+example : argsort demo.nodes dvals true = [.int 3, .int 1, .int 2, .int 9] := by decide
+example : aggMax (demo.nodes.map dvals) = some 3 ∧ aggUnique (demo.nodes.map dvals) = [0, 2, 3] ∧
+    aggCounts (demo.nodes.map dvals) = [1, 1, 2] ∧ aggMedian [3, 0, 2] = 2 := by decide
+example : (degreeW demo none "w" (.int 3)).toOption = some 4 ∧ (degreeW demo (some 1) "w" (.int 1)).toOption = some 3 := by decide
+
+private def dhdemo : DHG := ((C02.run DHG.empty
+  [ .addEdge (.pair [.int 1, .int 2] [.int 2, .int 3]) none [("w", .sc (.int 5))],
+    .addEdge (.pair [.int 3] [.int 1]) none [] ]).getD DHG.empty)
+/-- the hypothesis `C02.Reachable` of the `di_*_reachable` theorems is met by a non-trivial state -/
+example : ∃ s, C02.Reachable s ∧ (toDiSt s).edges = [.int 0] ∧ (toDiSt s).outDegree none (.int 1) = 1 :=
+  ⟨_, C02.Reachable.step (op := .addEdge (.pair [.int 1, .int 2] [.int 2, .int 3]) none [("w", .sc (.int 5))])
+        C02.Reachable.empty rfl, by decide, by decide⟩
+/-- … and `C03.Reachable` (simplicial complexes) by a complex with a triangle and its faces -/
+example : ∃ s, C03.Reachable s ∧ (s.edges.map (fun e => size s none e)).sum = (s.nodes.map (fun n => degree s none n)).sum ∧
+    s.edges.length = 4 :=
+  ⟨_, C03.Reachable.step (.addSimplex [.int 1, .int 2, .int 3] none [] {}) C03.Reachable.empty, by decide, by decide⟩
+example : (toDiSt dhdemo).nodes.map ((toDiSt dhdemo).outDegree none) = [1, 1, 1] ∧
+    (toDiSt dhdemo).edges.map ((toDiSt dhdemo).tailSize none) = [2, 1] := by decide
+example : ((toDiSt dhdemo).outDegreeW none "w" (.int 1)).toOption = some 5 ∧
+    ((toDiSt dhdemo).inDegreeW none "w" (.int 1)).toOption = some 1 := by decide
 
 end Xgi.C06
